@@ -162,17 +162,18 @@ def run_sequences(pid, seed, cfg, seqs, wall, hashseed=0):
     return outs
 
 
-def process_history_violation(pid, seed, cfg, idx, W, wall):
+def process_history_violation(pid, seed, cfg, idx, W, wall, pred_b=None, hashseed=0):
     """Case idx gave different outcomes in the sweep worker (predecessors idx-W, idx-2W, ...) and in
-    the echo worker (predecessors 0..idx-1).  Reproduce in fresh interpreters, then shrink the
-    predecessor lists; the replay file names both."""
+    the echo worker (predecessors 0..idx-1, or pred_b).  Reproduce in fresh interpreters, then shrink
+    the predecessor lists; the replay file names both."""
     pred_a = list(range(idx % W, idx, W))
-    pred_b = list(range(0, idx))
-    a, b = run_sequences(pid, seed, cfg, [pred_a + [idx], pred_b + [idx]], wall)
+    if pred_b is None:
+        pred_b = list(range(0, idx))
+    a, b = run_sequences(pid, seed, cfg, [pred_a + [idx], pred_b + [idx]], wall, hashseed)
     if a is None or b is None or a.get(idx) == b.get(idx):
         return None
     # which side differs from a fresh interpreter running the history alone?
-    alone, = run_sequences(pid, seed, cfg, [[idx]], wall)
+    alone, = run_sequences(pid, seed, cfg, [[idx]], wall, hashseed)
     ref = alone.get(idx) if alone else None
     side = pred_a if a.get(idx) != ref else pred_b
     trials = 0
@@ -181,7 +182,7 @@ def process_history_violation(pid, seed, cfg, idx, W, wall):
         changed = False
         half = len(side) // 2
         cands = [side[:half], side[half:]] + [side[:i] + side[i + 1:] for i in range(len(side))][:6]
-        outs = run_sequences(pid, seed, cfg, [c + [idx] for c in cands], wall)
+        outs = run_sequences(pid, seed, cfg, [c + [idx] for c in cands], wall, hashseed)
         trials += len(cands)
         for c, o in zip(cands, outs):
             if o is not None and o.get(idx) != ref:
@@ -191,7 +192,7 @@ def process_history_violation(pid, seed, cfg, idx, W, wall):
     return {"property": pid, "signature": {"property": pid, "invariant": "I3:outcome_depends_on_process_history"},
             "sig_id": "ph-%d" % idx, "kind": "process_history",
             "case": {"mode": "process_history", "target": idx, "seed": seed, "tier_cfg": cfg,
-                     "predecessors": side, "reference_predecessors": []},
+                     "predecessors": side, "reference_predecessors": [], "pythonhashseed": hashseed},
             "schedule": {"policy": "-"}, "features": [],
             "detail": "history #%d gives another outcome digest after histories %s ran in the same interpreter than in a fresh interpreter" % (idx, side)}
 
@@ -421,7 +422,8 @@ def run_replay(pid, path):
     if rep["violation"].get("kind") == "process_history":
         c = rep["violation"]["case"]
         a, b = run_sequences(pid, c["seed"], c["tier_cfg"], [c["predecessors"] + [c["target"]],
-                                                              c["reference_predecessors"] + [c["target"]]], 600)
+                                                              c["reference_predecessors"] + [c["target"]]], 600,
+                             c.get("pythonhashseed", 0))
         if a and b and a.get(c["target"]) != b.get(c["target"]):
             print("VIOLATION property=%s replay=%s" % (pid, path))
             print("  history #%d: digest %s after predecessors %s, %s in a fresh interpreter" % (
